@@ -1737,28 +1737,30 @@ class sptensor:
             shapeArray = np.array(self.shape)
             if not np.array_equal(factor.shape, shapeArray[dims]):
                 assert False, "Size mismatch in scale"
-            return ttb.sptensor(
-                self.subs,
-                self.vals * factor[self.subs[:, dims]][:, None],
-                self.shape,
-            )
+            if self.nnz == 0:
+                return self.copy()
+            return self._scaled(np.reshape(factor[self.subs[:, dims]], (-1, 1)))
         if isinstance(factor, ttb.sptensor):
             shapeArray = np.array(self.shape)
             if not np.array_equal(factor.shape, shapeArray[dims]):
                 assert False, "Size mismatch in scale"
-            return ttb.sptensor(
-                self.subs, self.vals * factor[self.subs[:, dims]], self.shape
-            )
+            if self.nnz == 0:
+                return self.copy()
+            return self._scaled(factor.extract(self.subs[:, dims]))
         if isinstance(factor, np.ndarray):
             shapeArray = np.array(self.shape)
             if factor.shape[0] != shapeArray[dims]:
                 assert False, "Size mismatch in scale"
-            return ttb.sptensor(
-                self.subs,
-                self.vals * factor[self.subs[:, dims].transpose()[0]][:, None],
-                self.shape,
-            )
+            if self.nnz == 0:
+                return self.copy()
+            return self._scaled(factor[self.subs[:, dims].transpose()[0]][:, None])
         assert False, "Invalid scaling factor"
+
+    def _scaled(self, scaling: np.ndarray) -> sptensor:
+        """Scale the stored values by a column vector, dropping zero products."""
+        vals = self.vals * scaling
+        keep = vals[:, 0] != 0
+        return ttb.sptensor(self.subs[keep], vals[keep], self.shape)
 
     def spmatrix(self) -> sparse.coo_matrix:
         """Convert 2-way :class:`pyttb.sptensor` to :class:`scipy.sparse.coo_matrix`.
